@@ -243,6 +243,7 @@ def eval_store(ctx, cases, results, f0, name="cases_store"):
     res = coq.run_cases(ctx, name, PRE, defs, [
         ("mismatch", "bad_indices agrees cases 0"),
         ("violations", "bad_indices ok_case cases 0"),
+        ("dark", "bad_indices (fun tc => negb (is_dark (tc_state tc))) cases 0"),
     ])
     if res is None:
         return None
@@ -315,9 +316,35 @@ def store_cases(ctx):
             cases.append({"cap": 64, "args": args, "mode": mode, "ops": ops2, "sync": [False, False, True, False, False, False],
                           "e": 0 if mode == "kill" else None, "directed": "norecord-innermost"})
     cases += shrink_cases()
+    cases += finish_cases()
     for _ in range(ctx.n(70, 1200)):
         cases.append(gen_case(rng))
     return cases
+
+
+def finish_cases():
+    """directed: the recording of the thread ends between two hook calls (finish trigger with open calls, signal
+    trigger picked up by an entry / by an exit hook, thread end), and the pipe is closed by another thread before a
+    buffer switch (the thread goes dark) - followed by every way of dying"""
+    out = []
+    base = [("E", 0, 1010, 1, 2), ("E", 1, 1020, 3, 4), ("E", 7, 1030, 0, 0), ("X", 1040, 0), ("E", 3, 1050, 5, 6)]
+    for cap in (48, 4080):
+        for args in (False, True):
+            def mk(ops, mode, end=None, close=None, e=None, sync=None):
+                return {"cap": cap, "args": args, "mode": mode, "ops": ops, "sync": sync or [False] * len(ops), "e": e,
+                        "end": end, "close": close, "directed": "finish"}
+            out.append(mk(base + [("E", FINISH_FN, 1060, 0, 0)], "exit", end="trigger"))
+            out.append(mk(base + [("E", FINISH_FN, 1060, 0, 0)], "segv", end="trigger",
+                          sync=[False, False, False, True, False, False]))
+            out.append(mk(base + [("E", 8, 1060, 0, 0)], "end", end="signal"))           # entry hook: only mtd_dtor
+            out.append(mk(base + [("X", 1060, 9)], "exit", end="signal"))                 # exit hook: records, then mtd_dtor
+            out.append(mk(base + [("X", 1060, 9)], "exit", end="tend"))
+            more = base + [("X", 1060, 9), ("X", 1070, 9), ("E", 10, 1080, 0, 0), ("X", 1090, 0), ("X", 1100, 9), ("E", 11, 1110, 9, 9)]
+            for close in (1, 3, 6):
+                out.append(mk(more, "exit", close=close))
+                out.append(mk(more, "kill", close=close, e=2))
+                out.append(mk(more, "segv", close=close, sync=[False] * 7 + [True] + [False] * 3))
+    return out
 
 
 def shrink_cases():
@@ -370,6 +397,7 @@ def run_store(ctx, objdir):
     res = eval_store(ctx, good_c, good_r, f0)
     if res is None:
         return ret_exe
+    dark = set(res["dark"])
     for i, (c, r) in enumerate(zip(good_c, good_r)):
         nrec = len(r["file"]) // 16
         tags = ["store:mode=" + c["mode"], "store:cap=%d" % c["cap"]]
@@ -385,6 +413,8 @@ def run_store(ctx, objdir):
             tags.append("store:kill-in-history-with-payload-records")
         if c.get("directed"):
             tags.append("store:directed-" + c["directed"])
+        if i in dark and c.get("close") is not None:
+            tags.append("store:thread-went-dark(REC_END/REC_START-lost)")
         if c.get("end"):
             tags.append("store:recording-ends-by-" + c["end"])
         if c.get("close") is not None:
@@ -634,7 +664,7 @@ def live_verdict(ctx, hists, res):
 
 # ------------------------------------------------------------------ (C) end to end
 MAXEV = 4096
-HOWS = {"sigkill": 0, "segv": 1, "abort": 2, "_exit": 3, "execv": 4, "exit": 5, "none": 9}
+HOWS = {"sigkill": 0, "segv": 1, "abort": 2, "_exit": 3, "execv": 4, "exit": 5, "sigusr1": 6, "none": 9}
 
 PROG_HEAD = r"""
 #define _GNU_SOURCE
@@ -664,6 +694,7 @@ NOI static void die(void)
 	case 3: _exit(3); break;
 	case 4: execv(self_argv[0], self_argv); break;        /* the same traced program, in the same task */
 	case 5: exit(4); break;
+	case 6: raise(SIGUSR1); break;                       /* --signal SIGUSR1@finish: the program goes on */
 	}
 }
 NOI static void LOG(int x, int k)
@@ -852,8 +883,8 @@ def run_e2e(ctx, objdir):
         progs.append({"exe": exe, "nth": nth, "nf": nf, "ftab": func_table(exe, nf), "full": logs,
                       "src": src, "id": pi})
     cases = []
-    hows = ["sigkill", "segv", "abort", "_exit", "execv", "exit", "finish"]
-    per = ctx.n(14, 42)
+    hows = ["sigkill", "segv", "abort", "_exit", "execv", "exit", "finish", "sigfinish"]
+    per = ctx.n(16, 48)
     for pr in progs:
         for j in range(per):
             how = hows[j % len(hows)]
@@ -887,6 +918,9 @@ def run_e2e(ctx, objdir):
             if how == "finish":
                 k = pr["full"][th][1][at][1]
                 case.update({"how": "none", "finish": k, "th": -1, "at": -1, "opts": opts + ["-T", "f%d@finish" % k]})
+            if how == "sigfinish":
+                # signal trigger: the handler only sets the finish flag; every thread stops recording at its next hook
+                case.update({"how": "sigusr1", "sigfinish": True, "opts": opts + ["--signal", "SIGUSR1@finish"]})
             cases.append(case)
     t0 = time.time()
     with concurrent.futures.ThreadPoolExecutor(max_workers=6) as ex:
@@ -906,8 +940,8 @@ def e2e_judge(ctx, progs, cases, obs):
     for ci, (case, ob) in enumerate(zip(cases, obs)):
         pr = progs[case["prog"]]
         rj = {"line": "e2e", "case": case, "program": pr["src"]}
-        how = "finish" if "finish" in case else case["how"]
-        tags = ["e2e:how=" + how, "e2e:threads=%d" % (pr["nth"] + 1)] + ["e2e:opt=" + o for o in case["opts"] if o.startswith("-") and o != "-T"]
+        how = "finish" if "finish" in case else "sigfinish" if case.get("sigfinish") else case["how"]
+        tags = ["e2e:how=" + how, "e2e:threads=%d" % (pr["nth"] + 1)] + ["e2e:opt=" + o for o in case["opts"] if o.startswith("-") and o not in ("-T", "--signal")]
         if ob.get("skipped"):
             continue
         if ob.get("timeout"):
@@ -941,7 +975,7 @@ def e2e_judge(ctx, progs, cases, obs):
         for ti, (tid, log) in enumerate(ob["logs"]):
             if tid:
                 per_tid.setdefault(tid, {"l1": [], "l2": [], "ti": ti, "c1": False, "c2": False})
-                per_tid[tid]["l1"] = pr["full"][ti][1] if how == "finish" else log
+                per_tid[tid]["l1"] = pr["full"][ti][1] if how in ("finish", "sigfinish") else log
                 per_tid[tid]["c1"] = how in ("segv", "abort") and ti == case["th"]
         for ti, (tid, log) in enumerate(ob.get("logs2", [])):
             if tid:
@@ -977,7 +1011,7 @@ def e2e_judge(ctx, progs, cases, obs):
     for i in coq.parse_nat_list(res["violations"])[:3]:
         ci, ti, tid = owner[i]
         case, ob = cases[ci], obs[ci]
-        how = "finish" if "finish" in case else case["how"]
+        how = "finish" if "finish" in case else "sigfinish" if case.get("sigfinish") else case["how"]
         ctx.violation("C04 violated (end to end): %d.dat (thread %d) left after the tracee %s is not made of whole records "
                       "forming a prefix of what the thread executed%s" % (
                           tid, ti, how, " / misses open calls of the crashing thread" if how in ("segv", "abort") else ""),
